@@ -355,6 +355,12 @@ class Body:
                 src = rv["pl"]
                 l = src["l"]
                 projs = [proj_key(e) for e in src["p"]] + projs
+            elif r == "cast" and rv["kind"] == "Transmute" and rv["o"].get("k") in ("copy", "move") and projs and projs[0] == "*" \
+                    and [proj_key(e) for e in rv["o"]["pl"]["p"]][-2:] == [".0", ".pointer"]:
+                # elaborated Box deref: `_p = transmute(box.0.pointer); (*_p)` is `*box`
+                src = rv["o"]["pl"]
+                l = src["l"]
+                projs = [proj_key(e) for e in src["p"]][:-2] + projs
             elif r == "cast" and rv["kind"] in ("PointerCoercion", "PtrToPtr") and rv["o"].get("k") in ("copy", "move"):
                 src = rv["o"]["pl"]
                 l = src["l"]
